@@ -1,0 +1,65 @@
+//go:build verif
+
+// Contracts for package spacepayloads, checked by /verif (govc). Comment-only.
+package spacepayloads
+
+// ---------------------------------------------------------------------------------------------
+// C13: a space id commits to its signed header; header / ACL root / settings root are only
+// accepted with valid content hashes and signatures and when they name the same space.
+// Decoders of the generated messages write only into the (local) message they are called on.
+//
+//@ func (*github.com/anyproto/any-sync/commonspace/spacesyncproto.RawSpaceHeader).UnmarshalVT
+//@   modifies object arg0
+//@ func (*github.com/anyproto/any-sync/commonspace/spacesyncproto.SpaceHeader).UnmarshalVT
+//@   modifies object arg0
+//@ func (*github.com/anyproto/any-sync/commonspace/object/acl/aclrecordproto.AclOneToOneInfo).UnmarshalVT
+//@   modifies object arg0
+//@ func (*github.com/anyproto/any-sync/commonspace/object/acl/aclrecordproto.AclRoot).UnmarshalVT
+//@   modifies object arg0
+//@ func (*github.com/anyproto/any-sync/consensus/consensusproto.RawRecord).UnmarshalVT
+//@   modifies object arg0
+//@ func (*github.com/anyproto/any-sync/commonspace/object/tree/treechangeproto.RawTreeChange).UnmarshalVT
+//@   modifies object arg0
+//@ func (*github.com/anyproto/any-sync/commonspace/object/tree/treechangeproto.RootChange).UnmarshalVT
+//@   modifies object arg0
+//@ package github.com/anyproto/any-sync/commonspace/spacepayloads
+
+//@ def sep(h) = strIndex(h.Id, ".")
+
+//@ func ValidateSpaceHeader
+//@   modifies nothing
+//@   ensures [nil_rejected]     rawHeaderWithId == nil ==> err != nil
+//@   ensures [has_separator]    err == nil ==> sep(rawHeaderWithId) != -1
+//@   ensures [id_is_header_cid] err == nil ==> cidOK(rawHeaderWithId.RawHeader, strsub(rawHeaderWithId.Id, 0, sep(rawHeaderWithId)))
+//@   ensures [header_signed]    err == nil ==> sigOK(crypto.UnmarshalEd25519PublicKeyProto(header.Identity), bytestr(rawSpaceHeader.SpaceHeader), rawSpaceHeader.Signature)
+//@   ensures [repl_key_suffix]  err == nil ==> strsub(rawHeaderWithId.Id, sep(rawHeaderWithId) + 1, len(rawHeaderWithId.Id)) == fmtUint(header.ReplicationKey, 36)
+//@   ensures [v1_embeds_acl]      err == nil && header.Version == 1 && !isnil(aclPayload) ==> bytesEq(aclPayload, header.AclPayload)
+//@   ensures [v1_embeds_settings] err == nil && header.Version == 1 && !isnil(settingsPayload) ==> bytesEq(settingsPayload, header.SettingPayload)
+//@   ensures [v0_needs_id_check]  err == nil ==> (needCheckSpaceId <==> header.Version != 1)
+//@   ensures [identity_matches]   err == nil && identity != nil && !IsOneToOneType(header.SpaceType) ==> crypto.UnmarshalEd25519PublicKeyProto(header.Identity).Equals(identity)
+//@ func IsOneToOneType
+//@   pure
+
+//@ func validateCreateSpaceAclPayload
+//@   modifies nothing
+//@   requires rawWithId != nil
+//@   ensures [id_is_cid]        err == nil ==> cidOK(rawWithId.Payload, rawWithId.Id)
+//@   ensures [root_signed]      err == nil ==> sigOK(crypto.UnmarshalEd25519PublicKeyProto(aclRoot.Identity), bytestr(rawAcl.Payload), rawAcl.Signature)
+//@   ensures [identity_signed_by_master] err == nil ==> sigOK(crypto.UnmarshalEd25519PublicKeyProto(aclRoot.MasterKey), bytestr(crypto.UnmarshalEd25519PublicKeyProto(aclRoot.Identity).Raw()), aclRoot.IdentitySignature)
+//@   ensures [returns_space_id] err == nil ==> spaceId == aclRoot.SpaceId
+
+//@ func validateCreateSpaceSettingsPayload
+//@   modifies nothing
+//@   requires rawWithId != nil
+//@   ensures [id_is_cid]        err == nil ==> cidOK(rawWithId.RawChange, rawWithId.Id)
+//@   ensures [root_signed]      err == nil ==> sigOK(crypto.UnmarshalEd25519PublicKeyProto(rootChange.Identity), bytestr(raw.Payload), raw.Signature)
+//@   ensures [returns_ids]      err == nil ==> spaceId == rootChange.SpaceId && aclHeadId == rootChange.AclHeadId
+
+//@ func ValidateSpaceStorageCreatePayload
+//@   modifies nothing
+//@   requires payload.AclWithId != nil && payload.SpaceSettingsWithId != nil
+//@   ensures [header_cid]    err == nil ==> payload.SpaceHeaderWithId != nil && cidOK(payload.SpaceHeaderWithId.RawHeader, strsub(payload.SpaceHeaderWithId.Id, 0, sep(payload.SpaceHeaderWithId)))
+//@   ensures [acl_cid]       err == nil ==> cidOK(payload.AclWithId.Payload, payload.AclWithId.Id)
+//@   ensures [settings_cid]  err == nil ==> cidOK(payload.SpaceSettingsWithId.RawChange, payload.SpaceSettingsWithId.Id)
+//@   ensures [v0_same_space] err == nil && needCheckSpaceId ==> aclSpaceId == payload.SpaceHeaderWithId.Id && settingsSpaceId == payload.SpaceHeaderWithId.Id
+//@   ensures [settings_cite_acl_root] err == nil ==> aclHeadId == payload.AclWithId.Id
